@@ -9,7 +9,7 @@ from contracts.nonshear_env import patched
 LEVEL = "proof"
 EXPLANATION = ("real CijVolumeBaseInterface properties and Calculator._calculate_compliances run on symbolic (T,V) fields of symbolic "
                "size; averages compared with the fourth-rank tensor definitions built through voigt.py's own index maps; attribute "
-               "lookup enumerated over every name REGEX_CIJ matches; Reuss<=Hill<=Voigt and S=C^-1 additionally bounded on real numpy")
+               "lookup enumerated over every name REGEX_CIJ matches; Reuss<=Hill<=Voigt by a Lean/Mathlib lemma whose statements are proved to be the code's formulas; S=C^-1 additionally bounded on real numpy")
 CAL = "calculator."
 VB = CAL + "CijVolumeBaseInterface."
 RY_KGKM2 = z3.Real("RY_TO_KG_KM2_S2")
@@ -54,9 +54,9 @@ def run(s):
     keys = all_keys()
     s.trust("z3 5.1 (QF_LRA/NRA)", "vf/symnp.py", "numpy.linalg.inv = matrix inverse (A-NUMPY)")
     s.assume("A-FP", "A-NUMPY: numpy.linalg.inv returns the batched matrix inverse", "A-PINT/A-CONST: Ry -> kg km^2/s^2 and N_A are constants, "
-             "compared with exact-SI/CODATA values", "A-HILL: Reuss <= Hill <= Voigt for positive-definite stiffness follows from the proved "
-             "formulas by Cauchy-Schwarz (stated mathematics; additionally checked on random SPD tensors, bounded)")
-    s.undecided_part("Reuss <= Hill <= Voigt as a deductive lemma (Cauchy-Schwarz on 6x6 SPD matrices): bounded run-time check only")
+             "compared with exact-SI/CODATA values", "L-HILL (proved, Lean 4 + Mathlib, lemmas/Hill.lean): for a real positive-definite 6x6 C and S = C^-1 the Reuss formulas are <= the "
+             "Voigt formulas (Cauchy-Schwarz for the C-inner product) and the mean lies between; the theorem statements are parsed and proved "
+             "equal to the formulas the code was proved to compute (C07.hill_lemma_is_about_the_code)")
     nt, ntv = Dim("nt"), Dim("ntv")
     C = {k: SymArr.atom("C%d%d" % k.voigt, (nt, ntv)) for k in keys}
     CT = {k: SymArr.atom("CT%d%d" % k.voigt, (nt, ntv)) for k in keys}
@@ -243,6 +243,13 @@ def run(s):
         s.oblige("C07." + name, ob, [VB + name])
     s.canary("C07.canary.G_R_with_3_instead_of_4", lambda: canary_gr(cal, duck, Scomp, tier))
 
+    # ---------------- 3b. Reuss <= Hill <= Voigt: Lean lemma over the formulas above, and the statement-to-code link
+    s.oblige("C07.hill_lemma_is_about_the_code", lambda: hill_link(spec, C, Scomp, tier), ["lemmas/Hill.lean (statements)"] + [VB + n for n in spec])
+    from vf import lean
+    s.oblige("C07.reuss_le_hill_le_voigt(lean)", lambda: lean.check_file("lemmas/Hill.lean"),
+             ["lemmas/Hill.lean: cs_posdef, reuss_le_voigt_bulk, reuss_le_voigt_shear, hill_between"])
+    s.canary("C07.canary.hill_link_with_wrong_coefficient", lambda: hill_link(spec, C, Scomp, tier, perturb=True))
+
     # ---------------- 4. mass and velocities
     KVRH = SymArr.atom("KVRH", (nt, ntv), lambda i, v: v > 0)
     GVRH = SymArr.atom("GVRH", (nt, ntv), lambda i, v: v > 0)
@@ -275,7 +282,57 @@ def run(s):
     s.oblige("C07.constants", lambda: constants(cal), ["cij.util.units", "scipy.constants"], kind="finite")
     # ---------------- 5. bounded: S = C^-1, definitions and Reuss <= Hill <= Voigt on random SPD tensors (real numpy)
     bounded_spd(s, cal)
-    s.min_obligations = 12
+    s.min_obligations = 14
+
+
+def hill_statements():
+    """the two inequalities of lemmas/Hill.lean as text: {theorem name: (lhs, rhs)}"""
+    import os
+    src = open(os.path.join(core.HERE, "lemmas", "Hill.lean")).read()
+    out = {}
+    for name in ("reuss_le_voigt_bulk", "reuss_le_voigt_shear"):
+        m = re.search(r"theorem %s \(C : Matrix \(Fin 6\) \(Fin 6\) ℝ\) \(hC : C\.PosDef\) :\s*(.*?)\s*≤\s*(.*?)\s*:= by" % name, src, re.S)
+        if not m:
+            raise core.OutsideSubset("lemmas/Hill.lean: theorem %s not found in the expected form" % name)
+        out[name] = (m.group(1), m.group(2))
+    m = re.search(r"theorem hill_between \(r v : ℝ\) \(h : r ≤ v\) : r ≤ \(v \+ r\) / 2 ∧ \(v \+ r\) / 2 ≤ v := by", src)
+    if not m:
+        raise core.OutsideSubset("lemmas/Hill.lean: hill_between not in the expected form")
+    return out
+
+
+def hill_link(spec, C, Scomp, tier, perturb=False):
+    """each side of the Lean inequalities, read from the .lean text with `C i j` / `C⁻¹ i j` (0-based) mapped to the code's
+    stiffness / compliance atoms, is the formula the code was proved to compute; Hill is the mean (v + r) / 2."""
+    from cij.util import c_
+    t, v = z3.Ints("t v")
+
+    def ev(text):
+        py = re.sub(r"C⁻¹ (\d) (\d)", r"S_\1_\2", text)
+        py = re.sub(r"C (\d) (\d)", r"C_\1_\2", py)
+        if re.search(r"[^0-9CS_()+\-*/ \n]", py):
+            raise core.OutsideSubset("unexpected token in Lean statement: %r" % py)
+        py = re.sub(r"(?<![\w.])(\d+)(?![\w.])", r"z3.RealVal(\1)", py)
+        ns = {"z3": z3}
+        for i in range(6):
+            for j in range(6):
+                ns["C_%d_%d" % (i, j)] = C[c_(i + 1, j + 1)].elem((t, v))
+                ns["S_%d_%d" % (i, j)] = Scomp[c_(i + 1, j + 1)].elem((t, v))
+        return eval(py, ns)
+    st = hill_statements()
+    pairs = [("reuss_le_voigt_bulk", 0, "bulk_modulus_reuss"), ("reuss_le_voigt_bulk", 1, "bulk_modulus_voigt"),
+             ("reuss_le_voigt_shear", 0, "shear_modulus_reuss"), ("reuss_le_voigt_shear", 1, "shear_modulus_voigt")]
+    goals = []
+    for th, side, name in pairs:
+        e = ev(st[th][side])
+        if perturb and name == "shear_modulus_voigt":
+            e = e * 2
+        goals.append(e == spec[name].elem((t, v)))
+    KR, KV = spec["bulk_modulus_reuss"].elem((t, v)), spec["bulk_modulus_voigt"].elem((t, v))
+    GR, GV = spec["shear_modulus_reuss"].elem((t, v)), spec["shear_modulus_voigt"].elem((t, v))
+    goals.append(spec["bulk_modulus_voigt_reuss_hill"].elem((t, v)) == (KV + KR) / 2)
+    goals.append(spec["shear_modulus_voigt_reuss_hill"].elem((t, v)) == (GV + GR) / 2)
+    return smt.prove(z3.And(*goals), [], tier=tier)
 
 
 def canary_gr(cal, duck, Scomp, tier):
@@ -437,7 +494,9 @@ MANIFEST = {
             "handed to inv is the symmetric assembly of the supplied components, every I<=J entry of the inverse is stored under its "
             "canonical key, and the vanishing-entry test looks at that entry. Velocities satisfy rho v^2 = modulus with rho = mass/V "
             "(NRA with Sqrt axioms), constants compared with exact-SI values; attribute lookup is enumerated over all 702 names. "
+            "Reuss<=Hill<=Voigt: lemmas/Hill.lean (Lean 4 + Mathlib; Cauchy-Schwarz for a positive-definite 6x6 matrix and its inverse) is compiled "
+            "on every run and its two inequalities are parsed and proved (z3) to be exactly the Reuss/Voigt formulas the code computes. "
             "Bounded: S=C^-1, the definitions, Reuss<=Hill<=Voigt and SI velocities on random SPD fields with real numpy.",
-    "note": "numpy.linalg.inv assumed to be the matrix inverse; Reuss<=Hill<=Voigt only bounded (A-HILL); A-FP; pint/scipy constants checked "
+    "note": "numpy.linalg.inv assumed to be the matrix inverse; Reuss<=Hill<=Voigt proved over the reals (Lean), not over floats (A-FP); pint/scipy constants checked "
             "numerically. Bounded part: 40 (quick) / 2000 (thorough) SPD fields, condition numbers up to 3e7.",
 }
